@@ -3,6 +3,7 @@ package checks
 import (
 	"fmt"
 	"os"
+	"path/filepath"
 	"strings"
 	"sync"
 	"testing"
@@ -104,6 +105,7 @@ func (c C12Case) syncInterval() time.Duration {
 
 const c12Rule = "1-3 writer tasks (Put/Remove) on a store with BurstRate(0) and a pinned tiny flush rate (verif-tagged setter) so that every write enters the waiting path, the real flusher goroutine adopted as a scheduled task at its first named point, 0-2 explicit Flush tasks; the cooperative scheduler parks tasks at the named points in flushTick (measured, decided, registered, signalled), Flush and run and follows a generated schedule (single long preemption at a drawn point, PCT-style priorities, random walk); " +
 	"oracle = bounded-liveness closure: after the generated schedule everything runs freely and three further explicit Flush() calls complete; every writer must return. The verdict is taken from goroutine states, not from elapsed time: a writer still in the channel receive of the back-pressure wait while the flusher sits idle in its select and no Flush is in progress can never be released. " +
+	"Failed-flush part: a store that is not started (explicit flushes only), a waiting writer, one Flush made to fail by a stray file at the next primary file name, the stray file removed, three more Flush calls: the writer must be released (state-based verdict). " +
 	"Single-writer part: one writer, burst rates 0..4000, 5-60 Put/Remove calls with values of 1-200 bytes on keys of few buckets, periodic interval one hour (or 20 us..1 ms, so that ticks meet the writer's signals) and no Flush issued by the harness: a call that waits must be released by the flush it asked for itself (same state-based verdict, taken while the call is still waiting). " +
 	"non-trivial = a flush completed between a writer's decision to wait and its registration for the notice (observed in the event order); (scheduled part), >=2 writers (free-running part), the writer did enter the wait (single-writer part); distinct = distinct canonical JSON of the case"
 
@@ -358,9 +360,145 @@ func runC12Self(c C12Case) (st c12Stats, v *Violation) {
 	return st, v
 }
 
+// runC12Fault: "as long as flushes keep succeeding no caller waits forever"
+// also holds after a flush that failed. The store is not started, so every
+// flush is an explicit one: a writer waits, a stray file at the next file name
+// makes one Flush fail, the stray file is removed, further Flush calls
+// succeed - and the first of them must release the writer.
+func runC12Fault(c C12Case) (st c12Stats, v *Violation) {
+	dir := newScratch("bpx")
+	defer os.RemoveAll(dir)
+	prim := uint32(c.Burst) // reused: primary file size of this scenario
+	s, err := store.OpenStore(bg, store.MultihashPrimary, dir+"/"+dataBase, dir+"/"+idxBase, false,
+		store.IndexBitSize(8), store.IndexFileSize(1<<20), store.PrimaryFileSize(prim),
+		store.GCInterval(0), store.SyncInterval(time.Hour), store.BurstRate(0))
+	if err != nil {
+		panic(infraError{err})
+	}
+	s.VerifPinFlushRate(1e-9)
+	defer vhook.PinRate(0)
+	baseline := map[int64]bool{}
+	for _, g := range moduleGoroutines() {
+		baseline[g.id] = true
+	}
+	waitingWriters := func() int {
+		n := 0
+		for _, g := range moduleGoroutines() {
+			if !baseline[g.id] && strings.Contains(g.stack, ".(*Store).flushTick") && g.state == "chan receive" {
+				n++
+			}
+		}
+		return n
+	}
+	key := func(i int) []byte { return c.Keys[i%len(c.Keys)].Encode(store.MultihashPrimary, false) }
+	// Earlier traffic: each write waits, and an explicit flush releases it.
+	put := func(i int, vlen int) (done chan struct{}) {
+		done = make(chan struct{})
+		go func() {
+			defer close(done)
+			s.Put(key(i), valueFor(i, vlen, false))
+		}()
+		return done
+	}
+	awaitWaitOrDone := func(done chan struct{}) bool { // true: the writer waits
+		deadline := time.Now().Add(5 * time.Second)
+		for time.Now().Before(deadline) {
+			select {
+			case <-done:
+				return false
+			case <-time.After(2 * time.Millisecond):
+			}
+			if waitingWriters() > 0 {
+				return true
+			}
+		}
+		return false
+	}
+	for i, op := range c.SelfOps {
+		d := put(i, op.VLen)
+		if awaitWaitOrDone(d) {
+			s.Flush()
+		}
+		select {
+		case <-d:
+		case <-time.After(5 * time.Second):
+			st.skipped = true
+			go closeQuietly(s)
+			return st, nil
+		}
+	}
+	// The fault.
+	nums := numberedFiles(dir, dataBase)
+	next := uint32(0)
+	if len(nums) > 0 {
+		next = nums[len(nums)-1] + 1
+	}
+	var strays []string
+	for n := next; n < next+3; n++ {
+		p := filepath.Join(dir, fmt.Sprintf("%s.%d", dataBase, n))
+		os.WriteFile(p, []byte("stray"), 0o644)
+		strays = append(strays, p)
+	}
+	d := put(1000, 40)
+	if !awaitWaitOrDone(d) {
+		st.skipped = true
+		closeQuietly(s)
+		return st, nil
+	}
+	st.windowHit = true
+	flushErr := s.Flush()
+	for _, p := range strays {
+		os.Remove(p)
+	}
+	if flushErr == nil {
+		// The flush did not have to roll over: nothing failed, nothing to see.
+		s.Flush()
+		<-d
+		s.Close()
+		return st, nil
+	}
+	st.preempt = 1 // the injected failure was hit
+	// From here on flushes succeed. (The failed one may have written part of
+	// the data; what matters here is only that the writer is released.)
+	ok := 0
+	for i := 0; i < 3; i++ {
+		if s.Flush() == nil {
+			ok++
+		}
+	}
+	select {
+	case <-d:
+	case <-time.After(300 * time.Millisecond):
+		stable := 0
+		for i := 0; i < 5; i++ {
+			time.Sleep(20 * time.Millisecond)
+			if waitingWriters() > 0 {
+				stable++
+			}
+		}
+		select {
+		case <-d:
+		default:
+			if ok > 0 && stable == 5 {
+				v = viol("writer-never-released|after-failed-flush|", 0, "a writer waited, one Flush failed (%v), its cause was removed and %d of 3 further Flush calls returned nil, yet the writer still waits for the flush notice (stable over 5 samples, no flush in progress)", flushErr, ok)
+			} else {
+				st.skipped = true
+			}
+			s.Flush()
+			go closeQuietly(s)
+			return st, v
+		}
+	}
+	s.Close()
+	return st, nil
+}
+
 func runC12(c C12Case) (st c12Stats, v *Violation) {
 	if c.Free {
 		return runC12Free(c)
+	}
+	if c.Self && c.SyncUS < 0 {
+		return runC12Fault(c)
 	}
 	if c.Self {
 		return runC12Self(c)
@@ -611,6 +749,33 @@ func TestC12(t *testing.T) {
 		}
 		ev.Record(c, c.FreeWriters >= 2, cl...)
 		ev.Class("free-running-rounds", c.FreeRounds)
+		if v != nil && ev.Report(v, c) {
+			rt.Fatalf("%v", v)
+		}
+	})
+	// A failed flush in between (SyncUS = -1 marks the scenario; Burst carries
+	// the primary file size).
+	setRapidChecks(budget(60, 120))
+	rapid.Check(t, func(rt *rapid.T) {
+		if pastDeadline() {
+			ev.Skip()
+			return
+		}
+		c := C12Case{Self: true, SyncUS: -1}
+		c.Burst = []int{16, 16, 33, 64}[rapid.IntRange(0, 3).Draw(rt, "primsize")]
+		c.Keys = genKeys(rt, Config{Primary: store.MultihashPrimary, Bits: 8}, 2, 6)
+		c.SelfOps = rapid.SliceOfN(rapid.Custom(func(t *rapid.T) Op {
+			return Op{K: opPut, VLen: []int{1, 20, 100}[rapid.IntRange(0, 2).Draw(t, "vlen")]}
+		}), 0, 4).Draw(rt, "before")
+		st, v := runC12(c)
+		cl := []string{"failed-flush-in-between"}
+		if st.preempt > 0 {
+			cl = append(cl, "failed-flush-in-between:flush-did-fail")
+		}
+		if st.skipped {
+			cl = append(cl, "inconclusive-timeout")
+		}
+		ev.Record(c, st.preempt > 0, cl...)
 		if v != nil && ev.Report(v, c) {
 			rt.Fatalf("%v", v)
 		}
